@@ -657,6 +657,14 @@ class Interp:
         if isinstance(it, App) and it.func == "enumerate" and it.args and isinstance(it.args[0], ListV) and not it.args[0].open and len(it.args[0].items) <= 12:
             start = it.args[1].v if len(it.args) > 1 and isinstance(it.args[1], Const) and isinstance(it.args[1].v, int) else 0
             it = ListV(tuple(ListV((Const(start + i), x), kind="tuple") for i, x in enumerate(it.args[0].items)))
+        # range() over decided bounds is a closed collection of integers
+        if isinstance(it, App) and it.func == "range" and 1 <= len(it.args) <= 3 and not it.kwargs and all(isinstance(a, Const) and isinstance(a.v, int) and not isinstance(a.v, bool) for a in it.args):
+            try:
+                rng = range(*[a.v for a in it.args])
+            except ValueError:
+                rng = None
+            if rng is not None and len(rng) <= 12:
+                it = ListV(tuple(Const(i) for i in rng))
         # closed literal collections are unrolled
         if isinstance(it, ListV) and not it.open and len(it.items) <= 12:
             states = [s]
